@@ -214,6 +214,9 @@ def oracle(seed, tier):
                 break
     # twin worlds (two disjoint features, same model type, different parameters): a twin's answers may not depend on the other twin having been evaluated before
     ct, nt = twins.twin_oracle(rng, budget(tier, 10, 1000), wdir, viol)
+    # two worlds alive at once, same feature and place, different parameters, alternating queries at identical points
+    cp_, np_ = twins.pair_oracle(rng, budget(tier, 12, 1000), wdir, viol)
+    ct += cp_; nt += np_
     cases += ct
     samples = [{"batched": lines[i], "answer": out[i][:160]} for i, ch in enumerate(checks[:len(out)]) if ch and ch[0] == "batched"][:3]
     return {"violations": trim_violations(viol, 20), "summary": {"cases": cases, "violations": len(viol), "nontrivial": len(nontriv), "worlds": nworlds}, "samples": samples}
